@@ -53,6 +53,12 @@ class Cycler:
         self.g += 1
         return "gse_%s_%s" % (nn, bn)
 
+    def dim_no_u8_bl(self):
+        # blockLength must hold 130: skip nothing (uint8 holds 255), but make sure uint8 numInGroup is among the choices
+        nn, bn = UINTS[self.g % 4][0], UINTS[(self.g // 4) % 4][0]
+        self.g += 1
+        return "gse_%s_%s" % (nn, bn)
+
     def data(self):
         k = self.d
         self.d += 1
@@ -134,7 +140,7 @@ def family_a(tier):
                 yield desc, Msg(name, k, [Field("r", ids.next(), "uint8")], [g], [Data("d", ids.next(), cyc.data())])
 
 
-GROUP_KINDS = ["flat", "data", "nested", "empty", "constonly"]
+GROUP_KINDS = ["flat", "data", "nested", "empty", "constonly", "bigbl"]
 
 
 def make_group(kind, name, ids, cyc, depth, tier):
@@ -144,11 +150,15 @@ def make_group(kind, name, ids, cyc, depth, tier):
         return [Group(name, ids.next(), [Field("x", ids.next(), "uint8")], [], [Data("gd", ids.next(), cyc.data())], dim=cyc.dim())]
     if kind == "empty":
         return [Group(name, ids.next(), [], dim=cyc.dim())]
+    if kind == "bigbl":
+        # explicit blockLength 130: two entries exceed 255 bytes, the range of a uint8 numInGroup/blockLength product
+        return [Group(name, ids.next(), [Field("x", ids.next(), "uint8"), Field("k", ids.next(), "CST")], dim=cyc.dim_no_u8_bl(),
+                      block_length=130)]
     if kind == "constonly":
         return [Group(name, ids.next(), [Field("k", ids.next(), "CST")], dim=cyc.dim())]
     # nested: every kind of inner group (depth permitting)
     out = []
-    inner_kinds = GROUP_KINDS if depth < 2 else ["flat", "data", "empty", "constonly"]
+    inner_kinds = GROUP_KINDS if depth < 2 else ["flat", "data", "empty", "constonly", "bigbl"]
     if tier == "quick":
         inner_kinds = [k for k in inner_kinds if k != "nested"] if depth >= 1 else inner_kinds
     for ik in inner_kinds:
